@@ -19,6 +19,7 @@ import pathlib
 
 from sim import fixtures as fx
 from sim.runner import RunResult
+from sim.storage import SEAM
 from sim.tofuworld import HOSTS, PORTS, TofuWorld, load_cert, read_table, spell
 
 PROPERTY = "C03"
@@ -36,7 +37,7 @@ RULE = ("each run is a history of 1-12 operations drawn from get (with/without q
 PROBES = ["cert_changed_detected", "unreadable_cert_presented", "redirect_hop_checked",
           "first_use_pinned", "pinned_match", "import_applied", "revoke_then_refetch", "tofu_off",
           "upload_checked", "ec_cert", "first_use_on_failing_endpoint", "overlapping_first_use", "near_miss_pin_imported", "mixed_case_host_spelling", "server_speaks_first_tls12", "failed_import_in_history",
-          "overlapping_ops_different_endpoints"]
+          "overlapping_ops_different_endpoints", "sql_fault_during_operation"]
 COMPONENTS = {
     "real": ["nauyaca.client.session.GeminiClient (get/upload/delete, redirects)",
              "nauyaca.client.protocol", "nauyaca.security.tofu.TOFUDatabase on a real sqlite file",
@@ -67,7 +68,7 @@ def run_one(ch):
     nops = 1 + ch.choose("nops", 12)
     model = {}
     st = {"hist": [], "changed": 0, "unreadable": 0, "redir": 0, "first": 0, "match": 0,
-          "import": 0, "mutation": 0, "upload": 0, "refetch": 0, "failing": 0, "concurrent": 0, "nearmiss": 0, "mixedcase": 0, "speakfirst": 0, "failedimport": 0, "overlapdiff": 0}
+          "import": 0, "mutation": 0, "upload": 0, "refetch": 0, "failing": 0, "concurrent": 0, "nearmiss": 0, "mixedcase": 0, "speakfirst": 0, "failedimport": 0, "overlapdiff": 0, "sqlfault": 0}
     revoked = set()
 
     def endpoint(label):
@@ -142,6 +143,11 @@ def run_one(ch):
                     break
                 if kind == "upload":
                     st["upload"] += 1
+                # a storage fault at a drawn SQL tick of this operation
+                SEAM.fired = None
+                if tofu_on and ch.chance("sqlfault", 0.1):
+                    SEAM.fault_at = SEAM.tick + 1 + ch.choose("sqltick", 5)
+                    SEAM.fault_kind = "error:" + ch.pick("sqlerr", ["database is locked", "disk I/O error"])
                 try:
                     if kind == "get":
                         r = await client.get(url_of(key, path))
@@ -155,6 +161,21 @@ def run_one(ch):
                     got = ("changed", e)
                 except Exception as e:  # noqa
                     got = ("err", e)
+                SEAM.fault_at = None
+                if SEAM.fired is not None:
+                    # under a storage fault only the safety rules are demanded: a changed or
+                    # unreadable certificate never yields a response; then continue from
+                    # the real table (a pin may or may not have been written)
+                    st["sqlfault"] += 1
+                    st["hist"][-1] += f" [sql fault at {SEAM.fired[2][:30]!r}]"
+                    if expect[0] in ("changed", "unreadable") and got[0] == "resp":
+                        res.violate(f"C03/{expect[0]}-certificate-accepted/" + kind,
+                                    "storage fault during the operation: a certificate that fails "
+                                    "verification was accepted and a response returned",
+                                    step=desc, history=st["hist"][-8:])
+                    model.clear()
+                    model.update(read_table(w.db_path))
+                    continue
                 # pins written on the way are durable even if a later hop fails
                 if expect[0] in ("resp", "redirect-limit", "fail"):
                     model.clear()
@@ -414,7 +435,8 @@ def run_one(ch):
               "redirect_hop_checked": "redir", "first_use_pinned": "first", "pinned_match": "match",
               "import_applied": "import", "upload_checked": "upload", "revoke_then_refetch": "refetch",
               "first_use_on_failing_endpoint": "failing", "overlapping_first_use": "concurrent", "near_miss_pin_imported": "nearmiss", "mixed_case_host_spelling": "mixedcase", "server_speaks_first_tls12": "speakfirst", "failed_import_in_history": "failedimport",
-              "overlapping_ops_different_endpoints": "overlapdiff"}
+              "overlapping_ops_different_endpoints": "overlapdiff",
+              "sql_fault_during_operation": "sqlfault"}
     for probe, k in st_map.items():
         if st[k]:
             res.stats[probe] += 1
